@@ -44,6 +44,9 @@ pub struct Wd {
     pub views: Mutex<Vec<View>>,
     /// (response path, field name) of every resolver start
     pub names: Mutex<Vec<(String, String)>>,
+    /// index of the subscription event currently being resolved (single-root subscriptions);
+    /// a table key `<path>@<event>` overrides `<path>` for that event only
+    pub event: std::sync::atomic::AtomicUsize,
 }
 
 /// What a resolver saw through `ctx.field().selection_set()` and `ctx.look_ahead()`.
@@ -61,7 +64,7 @@ pub struct View {
 pub const ALL_FIELD_NAMES: &[&str] = &["a", "n", "n2", "f", "fnn", "s", "e", "enn", "g", "gnn", "arg", "o", "onn", "i", "inn", "u", "unn", "j", "l", "ln", "lnn", "lo", "li", "lin", "ll", "lu", "lI", "pa", "pb", "pc"];
 impl Wd {
     pub fn new(table: BTreeMap<String, Ans>) -> Wd {
-        Wd { table, log: Mutex::new(Vec::new()), gates: None, events: 1, record_views: false, views: Mutex::new(Vec::new()), names: Mutex::new(Vec::new()) }
+        Wd { table, log: Mutex::new(Vec::new()), gates: None, events: 1, record_views: false, views: Mutex::new(Vec::new()), names: Mutex::new(Vec::new()), event: std::sync::atomic::AtomicUsize::new(0) }
     }
     pub fn log(&self, s: String) {
         self.log.lock().unwrap().push(s);
@@ -103,7 +106,8 @@ pub async fn enter(ctx: &Context<'_>) -> Got {
     if let Some(h) = &wd.gates {
         h.gate(path.clone()).await;
     }
-    let ans = wd.table.get(&path).cloned();
+    let ev = wd.event.load(std::sync::atomic::Ordering::SeqCst);
+    let ans = wd.table.get(&format!("{path}@{ev}")).or_else(|| wd.table.get(&path)).cloned();
     wd.log(format!("F:{path}"));
     Got { path, ans, wd }
 }
@@ -628,6 +632,7 @@ fn event_stream<T: Send + 'static>(wd: W, key: &'static str, mk: impl Fn(&Wd) ->
                 h.gate(format!("{key}@{i}")).await;
             }
             wd.log(format!("E:{key}@{i}"));
+            wd.event.store(i, std::sync::atomic::Ordering::SeqCst);
             Some((mk(&wd), i + 1))
         }
     })
